@@ -134,8 +134,13 @@ JudgeDlv(pre, obs) ==
                 i \in 1..Len(obs.dlv)}
       wantMax == RefDlvMax(pre)
       wantMin == RefDlvMin(pre)
+      touched(d) == d.o >= 1 /\ d.o <= pre.no /\ pre.onode[d.o] \in pre.obsTouched
   IN {Viol("C09", <<"unexpected delivery", d>>) : d \in got \ wantMax}
      \cup {Viol("C09", <<"missing delivery", d>>) : d \in wantMin \ got}
+     \* C10: the deliveries that went wrong belong to a node one of whose observers was subscribed /
+     \* unsubscribed / disallowed / dropped since the last stabilise: that call affected another one
+     \cup {Viol("C10", <<"delivery affected by a lifecycle call on another observer/subscription of the node", d>>) :
+            d \in {x \in (got \ wantMax) \cup (wantMin \ got) : touched(x)}}
      \cup (IF Cardinality(got) # Len(obs.dlv) THEN {Viol("C09", <<"delivered twice", obs.dlv>>)} ELSE {})
      \cup {Viol("C09", <<"delivered value differs from observer read", obs.dlv[i]>>) :
             i \in {j \in 1..Len(obs.dlv) :
@@ -159,7 +164,8 @@ JudgePanic(post, obs) ==
        \cup (IF obs.pclass \in {"height", "cyclic", "max_height_seen"}
              THEN {Viol("C19", <<"admissible call rejected", obs.panic>>)} ELSE {})
   ELSE IF obs.panic = "" /\ ~Ok(post) /\ ModelClass(post) \in {"height", "cyclic", "status", "max_height_seen", "foreign"}
-       THEN {Viol("C19", <<"no panic although", post.panic, "is due">>)}
+       \* a state poisoned by an earlier caught panic must refuse to stabilise again: that is C13
+       THEN {Viol(IF post.poisoned THEN "C13" ELSE "C19", <<"no panic although", post.panic, "is due">>)}
   ELSE IF obs.panic # "" /\ ~Ok(post) /\ ModelClass(post) \in {"height", "cyclic"}
           /\ obs.pclass # ModelClass(post)
        THEN {Viol("C19", <<"panic does not name the cause", post.panic, obs.panic>>)}
